@@ -97,16 +97,27 @@ def f_ctor(case):
     Bk = B.backend(be)
     sm = Bk.mods()['s']
     D = 2 ** N
+    make = None
+    if name == 'identity_map':
+        idn = ref.RefClifford.identity(N)
+        M = sm.identity_map(N)
+        C.expect_list(Bk.read_list(M), (idn.L, idn.K), 'identity_map(%d)' % N, 'identity_map')
+        gl, gk = ref.parse(case['gen'])
+        M.rotate_by(Bk.pauli(gl, gk))          # the caller owns the returned map
+        C.expect_list(Bk.read_list(sm.identity_map(N)), (idn.L, idn.K), 'identity_map(%d) requested again after the first result was rotated in place' % N, 'ctor-second-call')
+        return {'nt': True, 'labels': [name, 'N=%d' % N]}
     if name == 'zero':
-        S = sm.zero_state(N); v = _ket([0] * N); rho = np.outer(v, v.conj()); r = 0
+        make = lambda: sm.zero_state(N); v = _ket([0] * N); rho = np.outer(v, v.conj()); r = 0
     elif name == 'one':
-        S = sm.one_state(N); v = _ket([1] * N); rho = np.outer(v, v.conj()); r = 0
+        make = lambda: sm.one_state(N); v = _ket([1] * N); rho = np.outer(v, v.conj()); r = 0
     elif name == 'ghz':
-        S = sm.ghz_state(N); v = (_ket([0] * N) + _ket([1] * N)) / np.sqrt(2); rho = np.outer(v, v.conj()); r = 0
+        make = lambda: sm.ghz_state(N); v = (_ket([0] * N) + _ket([1] * N)) / np.sqrt(2); rho = np.outer(v, v.conj()); r = 0
         if N == 1:
             v = (_ket([0]) + _ket([1])) / np.sqrt(2); rho = np.outer(v, v.conj())
     elif name == 'mixed':
-        S = sm.maximally_mixed_state(N); rho = np.eye(D) / D; r = N
+        make = lambda: sm.maximally_mixed_state(N); rho = np.eye(D) / D; r = N
+    if make is not None:
+        S = make()
     elif name == 'random_bit':
         rng.seed_all(case['seed'], torch=(be == 'torch'))
         S = sm.random_bit_state(N)
@@ -149,7 +160,8 @@ def f_ctor(case):
 
 def st_ctor(be, hiN, names):
     return st.integers(1, hiN).flatmap(lambda N: st.fixed_dictionaries(
-        {'be': st.just(be), 'N': st.just(N), 'name': st.sampled_from(names), 'seed': gen.st_seed(), 'r': st.integers(0, N)}))
+        {'be': st.just(be), 'N': st.just(N), 'name': st.sampled_from(names + ['identity_map']), 'seed': gen.st_seed(), 'r': st.integers(0, N),
+         'gen': gen.st_herm(N, nonidentity=True)}))
 
 
 def f_qutip(case):
